@@ -40,6 +40,24 @@ fn rope(bytes: &[u8], shape: &str) -> BinaryData {
             padded.extend_from_slice(&[0xCC]);
             BinaryData::Slice { parent: Rc::new(BinaryData::new(padded)), offset: 2, length: bytes.len() }
         }
+        // a strict prefix / suffix window of a longer buffer, and a window of a window
+        "prefix" => {
+            let mut padded = bytes.to_vec();
+            padded.extend_from_slice(&[0xDD, 0xEE]);
+            BinaryData::Slice { parent: Rc::new(BinaryData::new(padded)), offset: 0, length: bytes.len() }
+        }
+        "suffix" => {
+            let mut padded = vec![0x11u8, 0x22, 0x33];
+            padded.extend_from_slice(bytes);
+            BinaryData::Slice { parent: Rc::new(BinaryData::new(padded)), offset: 3, length: bytes.len() }
+        }
+        "nested" => {
+            let mut padded = vec![0x5Au8];
+            padded.extend_from_slice(bytes);
+            padded.extend_from_slice(&[0xA5, 0xA5]);
+            let outer = BinaryData::Slice { parent: Rc::new(BinaryData::new(padded)), offset: 1, length: bytes.len() + 1 };
+            BinaryData::Slice { parent: Rc::new(outer), offset: 0, length: bytes.len() }
+        }
         "zero" if bytes.iter().all(|b| *b == 0) => BinaryData::zeroed(bytes.len()),
         "repeat" => {
             // smallest period of the content
